@@ -354,6 +354,7 @@ contracts.append(Contract(
 
 
 def install(eng):
+    install_init(eng)
     eng.spec_funcs.update({"bisect_post": s_bisect_post, "nbrs_post": s_nbrs_post, "bisect_edge_post": s_bisect_edge_post,
                            "create_edges_post": s_create_edges_post, "refine_post": s_refine_post})
     cls = type(eng)
@@ -364,3 +365,92 @@ def install(eng):
                              "a bisected edge's children share its midpoint vertex (I_edge), edge.elem registration (I_elem)")
     eng.used_assumptions.add("refine_axis is verified from the statement after the conformity-closure loop (cut); the closure itself (global "
                              "invariant) is the bounded explorer's part")
+
+
+# ------------------------------------------------------------------------------------------
+# Mesh.__init__ on small tensor grids (N_t, N_x <= 3, symbolic strictly increasing coordinates, open and glued)
+
+def sc_mesh_init(eng):
+    scen = []
+    for nt in (1, 2, 3):
+        for nx in (1, 2, 3):
+            for glue in (False, True):
+                def build(eng, nt=nt, nx=nx, glue=glue):
+                    ts = [z3.Real("t_%d" % j) for j in range(nt + 1)]
+                    xs = [z3.Real("x_%d" % i) for i in range(nx + 1)]
+                    for a, b in list(zip(ts, ts[1:])) + list(zip(xs, xs[1:])):
+                        eng.assume(a < b)
+                    m = Obj("Mesh", {"__module__": MESH}, label="mesh")
+                    eng.ghost.update(dict(mesh=m, ts=ts, xs=xs, nt=nt, nx=nx, glue=glue))
+                    return {"self": m, "glue_space": glue, "initial_space_mesh": VList(xs), "initial_time_mesh": VList(ts)}
+                scen.append(dict(label="Nt={},Nx={},glue={}".format(nt, nx, glue), args=build))
+    return scen
+
+
+def s_mesh_init_post(eng, part):
+    g = eng.ghost
+    m, ts, xs, nt, nx, glue = g["mesh"], g["ts"], g["xs"], g["nt"], g["nx"], g["glue"]
+    roots = eng.iter_concrete(m.fields["roots"])
+    if len(roots) != nt * nx:
+        return False
+    R = lambda j, i: roots[j * nx + i]
+    if part == "tiling":
+        out = []
+        for j in range(nt):
+            for i in range(nx):
+                r = R(j, i)
+                ti, si = r.fields["time_interval"], r.fields["space_interval"]
+                out += [num_cmp("==", ti[0], ts[j]), num_cmp("==", ti[1], ts[j + 1]), num_cmp("==", si[0], xs[i]), num_cmp("==", si[1], xs[i + 1]),
+                        r.fields["levels"] == (0, 0), r.fields["parent"] is None, len(r.fields["children"].items) == 0,
+                        r.fields["glob_idx"] == j * nx + i]
+        return b_and(*out)
+    if part == "bookkeeping":
+        leaves = m.fields["leaf_elements"].items
+        vs = m.fields["vertices"].items
+        return (len(leaves) == len(roots) and all(a is b for a, b in zip(leaves, roots)) and m.fields["N_elements"] == nt * nx
+                and len(vs) == (nt + 1) * (nx + 1) and all(v.fields["idx"] == k for k, v in enumerate(vs)))
+    if part == "edges":
+        ok = True
+        for j in range(nt):
+            for i in range(nx):
+                e = eng.iter_concrete(R(j, i).fields["edges"])
+                ok = ok and all(x.fields["elem"] is R(j, i) for x in e)
+                # boundary flags on the four outer sides
+                ok = ok and (e[0].fields["on_boundary"] is (j == 0)) and (e[2].fields["on_boundary"] is (j == nt - 1))
+                ok = ok and (e[1].fields["on_boundary"] is (i == nx - 1)) and (e[3].fields["on_boundary"] is (i == 0))
+                # twins: right <-> left of the next element, top <-> bottom of the element above
+                if i + 1 < nx:
+                    l = eng.iter_concrete(R(j, i + 1).fields["edges"])[3]
+                    ok = ok and e[1].fields["nbr_edge"] is l and l.fields["nbr_edge"] is e[1]
+                if j + 1 < nt:
+                    b = eng.iter_concrete(R(j + 1, i).fields["edges"])[0]
+                    ok = ok and e[2].fields["nbr_edge"] is b and b.fields["nbr_edge"] is e[2]
+                if j == 0:
+                    ok = ok and e[0].fields["nbr_edge"] is None
+                if j == nt - 1:
+                    ok = ok and e[2].fields["nbr_edge"] is None
+            first = eng.iter_concrete(R(j, 0).fields["edges"])[3]
+            last = eng.iter_concrete(R(j, nx - 1).fields["edges"])[1]
+            if glue:
+                ok = ok and first.fields["glued"] is True and last.fields["glued"] is True
+                ok = ok and first.fields["nbr_edge"] is last and last.fields["nbr_edge"] is first
+            else:
+                ok = ok and first.fields["nbr_edge"] is None and last.fields["nbr_edge"] is None
+                ok = ok and first.fields["glued"] is False and last.fields["glued"] is False
+        return ok
+    raise OutsideSubset(part)
+
+
+init_contract = Contract(
+    MESH + ":Mesh.__init__", props=["C02", "C10"], setup=sc_mesh_init,
+    ensures=[("roots are the cells of the tensor grid: levels (0,0), no parent, no children, indices j*N_x + i", "mesh_init_post('tiling')"),
+             ("leaf collection == roots, element counter, vertex indices", "mesh_init_post('bookkeeping')"),
+             ("edges registered to their element; boundary flags on the four outer sides; twin edges wired pairwise; seam glued per slab",
+              "mesh_init_post('edges')")])
+contracts.append(init_contract)
+
+
+def install_init(eng):
+    eng.spec_funcs["mesh_init_post"] = lambda e, part: s_mesh_init_post(e, part)
+    eng.externals["OrderedDict"] = Ext("OrderedDict", {"fromkeys": Ext("fromkeys", lambda e, seq: LeafSet(e.iter_concrete(seq)))})
+    eng.externals["collections.OrderedDict"] = eng.externals["OrderedDict"]
